@@ -581,11 +581,24 @@ func (obj *Package) Define(creator func(args List) Object, doc *FuncDoc, aux ...
 			lam.Forms = List{&forward{fi: &fi}}
 		}
 	}
+	old := obj.funcs[name]
 	obj.funcs[name] = &fi
-	for _, pkg := range obj.Users {
-		pkg.mu.Lock()
-		pkg.funcs[name] = &fi
-		pkg.mu.Unlock()
+	if old != nil && old.Pkg == obj {
+		// The packages that inherited the function that is replaced
+		// inherit the new one if it is exported.
+		obj.withdrawFunc(name, old, false)
+	}
+	if fi.Export {
+		// As with Export, a package using this one is given the function
+		// unless it has a function of that name already, its own or one
+		// inherited from elsewhere.
+		for _, pkg := range obj.Users {
+			pkg.mu.Lock()
+			if xf := pkg.funcs[name]; xf == nil {
+				pkg.funcs[name] = &fi
+			}
+			pkg.mu.Unlock()
+		}
 	}
 	obj.mu.Unlock()
 	for _, h := range defunHooks {
